@@ -692,6 +692,9 @@ def make_late_case(rng, quick):
         spec["prog"] = prog
     spec["build"] = make_build(rng, spec["prog"])
     spec["ops"] = gen_ops(rng, g, spec, rounds=rng.choice([2, 2, 3]))
+    if spec["ops"] and spec["ops"][0][0] == "resp" and len(spec["build"]["events"]) >= 2 and rng.random() < 0.5:
+        # half of the late cases: the incomplete networks are used once before one of the later append() calls
+        spec["build"]["warm"] = rng.randint(1, len(spec["build"]["events"]) - 1)
     spec["sigs"] = g.sigs
     spec["deg"] = max(list(g.deg.values()) + [1])
     return spec
@@ -792,7 +795,28 @@ def _build(spec, dtype=np.int64, flatten=False):
     if spec.get("build") and not flatten:
         # networks put together by append() calls in the given order; a nested network may be extended after it was nested
         nets = [pm.Network() for _ in range(spec["build"]["nnets"])]
-        for k, items in spec["build"]["events"]:
+        warm = spec["build"].get("warm")
+        for ev, (k, items) in enumerate(spec["build"]["events"]):
+            if warm is not None and ev == warm and ev > 0:
+                # the network is USED (response, seed, sensitivity, reset) while it is still incomplete and extended afterwards:
+                # whatever a network derives from its module list at first use must follow later append() calls.  All signals
+                # are put back to their initial data, so the recorded operations see exactly what the model sees.
+                import contextlib, io
+                for nk in nets:
+                    try:
+                        with contextlib.redirect_stdout(io.StringIO()):
+                            nk.response()
+                            for sg_ in nk.sig_out:
+                                if sg_.state is not None:
+                                    sg_.sensitivity = np.ones_like(sg_.state)
+                            nk.sensitivity()
+                            nk.reset()
+                    except Exception:
+                        pass
+                for i, b in enumerate(spec["bases"]):
+                    shp = base_shape(b)
+                    bases[i].state = None if b["state"] is None else np.array(b["state"], dtype=dtype).reshape(shp)
+                    bases[i].sensitivity = None if b["sens"] is None else np.array(b["sens"], dtype=dtype).reshape(shp)
             nets[k].append([nets[it["ref"]] if "ref" in it else mkmod(it) for it in items])
         net = nets[0]
         net._all_nets = nets
